@@ -956,10 +956,15 @@ class _FunctionInformationCollector(ast.RopeNodeVisitor):
             self._handle_conditional_node(node)
 
     def _For(self, node):
+        outer_post_conditional = self.post_conditional
         with self._handle_loop_context(node), self._handle_conditional_context(node):
             # iter has to be checked before the target variables
             self.visit(node.iter)
+            # the loop variable is assigned before every execution of the body
+            inner_post_conditional = self.post_conditional
+            self.post_conditional = outer_post_conditional
             self.visit(node.target)
+            self.post_conditional = inner_post_conditional
 
             for child in node.body:
                 self.visit(child)
